@@ -189,6 +189,9 @@ type TEPolicy struct {
 	DropScopes  []string `json:"drop_scopes,omitempty"`
 	Veto        bool     `json:"veto,omitempty"`
 	VerifyThird bool     `json:"verify_third,omitempty"` // TokenExchangeTokensVerifierStorage accepts tokens "third:<sub>"
+	// NoLivenessCheck: ValidateTokenExchangeRequest does NOT check that access tokens presented as subject / actor are still
+	// live in the store (the default, diligent store does: the framework itself never consults the storage for them).
+	NoLivenessCheck bool `json:"no_liveness_check,omitempty"`
 }
 
 // StorePolicy collects the storage-side configuration.
@@ -940,6 +943,23 @@ func (s *Store) validateTokenExchangeRequest(ctx context.Context, r op.TokenExch
 	p := s.Policy.TE
 	if p.Veto {
 		return oidc.ErrInvalidRequest().WithDescription("exchange not permitted")
+	}
+	// diligent: the framework only decrypts / verifies access tokens presented as subject or actor, it never asks the
+	// storage whether they are still live; the token id is handed to this call, so the liveness check is made here.
+	if !s.Policy.TE.NoLivenessCheck {
+		s.mu.Lock()
+		var lerr error
+		if r.GetExchangeSubjectTokenType() == oidc.AccessTokenType && !strings.HasPrefix(r.GetExchangeSubjectTokenIDOrToken(), "third:") {
+			_, lerr = s.liveToken(r.GetExchangeSubjectTokenIDOrToken(), r.GetExchangeSubject())
+		}
+		if lerr == nil && r.GetExchangeActorTokenType() == oidc.AccessTokenType && r.GetExchangeActorTokenIDOrToken() != "" &&
+			!strings.HasPrefix(r.GetExchangeActorTokenIDOrToken(), "third:") {
+			_, lerr = s.liveToken(r.GetExchangeActorTokenIDOrToken(), r.GetExchangeActor())
+		}
+		s.mu.Unlock()
+		if lerr != nil {
+			return oidc.ErrInvalidRequest().WithDescription("subject or actor token is not live").WithParent(lerr)
+		}
 	}
 	if r.GetRequestedTokenType() == "" {
 		switch p.DefaultType {
